@@ -227,7 +227,7 @@ func specOpt6OK(code int, v string, kind int) bool {
 		return specOpts6OK(v, 0, 0)
 	}
 	if code == 98 {
-		return len(v) == 24
+		return len(v) == 24 && v[0] <= 32 && v[1] <= 128
 	}
 	if code == 99 {
 		return len(v) == 4
@@ -240,11 +240,11 @@ func specOpt6OK(code int, v string, kind int) bool {
 //@ contract (*Opt4RDMapRule).FromBytes
 //@   let a0 = string(data)
 //@   modifies op
-//@   ensures[accept] (err == nil) == (len(data) == 24)
+//@   ensures[accept] (err == nil) == (len(data) == 24 && a0[0] <= 32 && a0[1] <= 128)
 //@   ensures[eabits] err == nil ==> int(op.EABitsLength) == int(a0[2])
 //@   ensures[prefix4] err == nil ==> string(op.Prefix4.IP) == a0[4:8]
 //@   ensures[prefix6] err == nil ==> string(op.Prefix6.IP) == a0[8:24]
-//@   ensures[masks] err == nil ==> (int(a0[0]) <= 32 ==> dhcpv4.SpecMaskOnes(string(op.Prefix4.Mask)) == int(a0[0])) && (int(a0[1]) <= 128 ==> dhcpv4.SpecMaskOnes(string(op.Prefix6.Mask)) == int(a0[1]))
+//@   ensures[masks] err == nil ==> dhcpv4.SpecMaskOnes(string(op.Prefix4.Mask)) == int(a0[0]) && dhcpv4.SpecMaskOnes(string(op.Prefix6.Mask)) == int(a0[1])
 //@   ensures[wkp] err == nil ==> op.WKPAuthorized == (int(a0[3]) >= 128)
 
 //@ contract (*Opt4RDNonMapRule).FromBytes
@@ -1263,6 +1263,23 @@ func lemmaFixDUIDEN(p []byte) {
 	verifAssert(r.EnterpriseNumber == q.EnterpriseNumber && string(r.EnterpriseIdentifier) == string(q.EnterpriseIdentifier))
 	b2 := r.ToBytes()
 	verifAssert(string(b2) == string(b))
+}
+
+// 4rd Map Rule: what is decoded survives re-encoding (finding D11 was the failure of FromBytes:post:masks)
+//@ contract lemmaFix4RDMapRule
+func lemmaFix4RDMapRule(data []byte) {
+	var q Opt4RDMapRule
+	if q.FromBytes(data) != nil {
+		return
+	}
+	b := q.ToBytes()
+	var r Opt4RDMapRule
+	err := r.FromBytes(b)
+	verifAssert(err == nil)
+	verifAssert(r.EABitsLength == q.EABitsLength && r.WKPAuthorized == q.WKPAuthorized)
+	verifAssert(string(r.Prefix4.IP) == string(q.Prefix4.IP) && string(r.Prefix6.IP) == string(q.Prefix6.IP))
+	verifAssert(dhcpv4.SpecMaskOnes(string(r.Prefix4.Mask)) == dhcpv4.SpecMaskOnes(string(q.Prefix4.Mask)))
+	verifAssert(dhcpv4.SpecMaskOnes(string(r.Prefix6.Mask)) == dhcpv4.SpecMaskOnes(string(q.Prefix6.Mask)))
 }
 
 //@ contract lemmaFixRemoteID
